@@ -123,6 +123,7 @@ pub fn run(run: &Run) {
                     continue;
                 }
                 let case = json!({"kind": "skeleton", "sweep": name, "max_stmts": max, "index": i, "function": is_function, "prologue": prologue, "for_form": for_form});
+                run.watch(&case);
                 let (violations, lifted) = check_program(skel, is_function, prologue, for_form, &case);
                 run.eval(1);
                 let conds: usize = skel.iter().map(|s| s.conds()).sum();
